@@ -260,13 +260,19 @@ func caseOrderKey(c *Case) string {
 
 // ---------- supervisor ----------
 
+// tail keeps the beginning and the end of a worker's stderr (a fatal error prints its reason first and then
+// the stacks of all goroutines, which can be long).
 type tail struct {
-	mu  sync.Mutex
-	buf []byte
+	mu   sync.Mutex
+	head []byte
+	buf  []byte
 }
 
 func (t *tail) Write(p []byte) (int, error) {
 	t.mu.Lock()
+	if room := 1<<13 - len(t.head); room > 0 {
+		t.head = append(t.head, p[:min(room, len(p))]...)
+	}
 	t.buf = append(t.buf, p...)
 	if len(t.buf) > 1<<16 {
 		t.buf = t.buf[len(t.buf)-1<<15:]
@@ -275,7 +281,14 @@ func (t *tail) Write(p []byte) (int, error) {
 	return len(p), nil
 }
 
-func (t *tail) String() string { t.mu.Lock(); defer t.mu.Unlock(); return string(t.buf) }
+func (t *tail) String() string {
+	t.mu.Lock()
+	defer t.mu.Unlock()
+	if len(t.buf) > len(t.head) && !strings.HasPrefix(string(t.buf), string(t.head)) {
+		return string(t.head) + "\n...\n" + string(t.buf)
+	}
+	return string(t.buf)
+}
 
 type worker struct {
 	cmd    *exec.Cmd
@@ -439,6 +452,7 @@ func main() {
 	var mu sync.Mutex
 	next := 0
 	hangs, deaths := 0, 0
+	deathsNotRepeated, deathNotRepeatedWhy := 0, ""
 	aborted := map[string]int{}
 	samples := map[int]*Case{}
 	// a family x mode in which two groups hung or killed their worker is not continued (its remaining
@@ -511,9 +525,31 @@ func main() {
 				if d := time.Since(tg); d > 5*time.Second && os.Getenv("C13_DEBUG") != "" {
 					fmt.Fprintf(os.Stderr, "slow group %d (%s): %.1fs, started at +%.1fs\n", gi, g, d.Seconds(), tg.Sub(t0).Seconds())
 				}
+				if died {
+					// a death that does not repeat when the group is run again in a fresh worker is not a verdict about the
+					// library (the same input must fail every time): it is counted and reported in the evidence
+					w.cmd.Wait()
+					_, reason1 := deathSite(w.stderr.String())
+					if w2, err := startWorker(tier); err == nil {
+						rs2, done2, died2 := w2.exchange(req{G: &gi}, 30*time.Minute)
+						if !died2 {
+							mu.Lock()
+							deathsNotRepeated++
+							if deathNotRepeatedWhy == "" {
+								deathNotRepeatedWhy = fmt.Sprintf("group %s: %s", g, reason1)
+							}
+							mu.Unlock()
+							fmt.Fprintf(os.Stderr, "note: a worker died while running group %s (%s); the group completed when run again in a fresh worker\n", g, reason1)
+							w, rs, done, died = w2, rs2, done2, false
+						} else {
+							w2.cmd.Wait()
+							w = w2
+							rs = rs2
+						}
+					}
+				}
 				record(rs)
 				if died {
-					w.cmd.Wait()
 					site, reason := deathSite(w.stderr.String())
 					gg := g
 					record([]resp{{T: "v", Sig: "C13.process-killed:" + g.Fam + "/" + g.Cfg.Mode + "/" + site,
@@ -577,6 +613,8 @@ func main() {
 		"loopback_inconclusive_cases":        loopInc,
 		"loopback_inconclusive_first_reason": loopIncWhy,
 		"groups_skipped_after_hangs":         skipped,
+		"worker_deaths_not_repeated":         deathsNotRepeated,
+		"worker_death_not_repeated_reason":   deathNotRepeatedWhy,
 		"space":                              spaceDescription(e.Thorough()),
 		"not_covered":                        notCovered,
 	}
